@@ -2,7 +2,7 @@
 import numpy as np
 from hypothesis import strategies as st
 
-from checks.common import S, Raised, call, diameter, perm_from_noise
+from checks.common import as_layout, S, Raised, call, diameter, perm_from_noise
 from gen import curved, points, zoo
 from harness.runner import Clause
 from oracle import geom
@@ -43,7 +43,8 @@ def _finish(rec, shape, P, kinds, want, dist, size, sig, case):
     """Compare batch / single / permuted answers with the oracle on margin-filtered points."""
     n = len(P)
     safe = dist > MARGIN * size
-    Pq = P.copy()
+    Pq = as_layout(P, case.get("single", 0))  # the batch in one of four memory layouts
+    rec.label("layout:%d" % (case.get("single", 0) % 4))
     got = call(shape.is_inside, Pq)
     if isinstance(got, Raised):
         rec.fail("is_inside_batch", dict(sig, type=got.type), msg=got.msg)
